@@ -526,4 +526,108 @@ theorem sliceBack_rekey_injective (f : Nat → Nat) (hf : ∀ a b, f a = f b →
 
 end Rekey
 
+/-! ## Attribute uses: `'<hex address>_<name>'` keys and their conversion at object creation -/
+
+theorem hexChar_ne : ∀ d, d < 16 → hexChar d ≠ '_' := by decide
+
+theorem hexAux_ne (f : Nat) : ∀ (n : Nat) (acc : List Char), (∀ c ∈ acc, c ≠ '_') →
+    ∀ c ∈ hexAux f n acc, c ≠ '_' := by
+  induction f with
+  | zero => intro n acc h; simpa [hexAux] using h
+  | succ f ih =>
+    intro n acc h
+    unfold hexAux
+    split
+    · rename_i hn
+      intro c hc
+      rcases List.mem_cons.mp hc with rfl | hc
+      · exact hexChar_ne n hn
+      · exact h c hc
+    · apply ih
+      intro c hc
+      rcases List.mem_cons.mp hc with rfl | hc
+      · exact hexChar_ne _ (Nat.mod_lt _ (by omega))
+      · exact h c hc
+
+theorem pyHex_ne (n : Nat) : ∀ c ∈ pyHex n, c ≠ '_' := by
+  intro c hc
+  unfold pyHex at hc
+  rcases List.mem_cons.mp hc with rfl | hc
+  · decide
+  rcases List.mem_cons.mp hc with rfl | hc
+  · decide
+  exact hexAux_ne _ _ [] (by simp) c hc
+
+theorem splitU_ne_nil (s : List Char) : splitU s ≠ [] := by
+  cases s with
+  | nil => simp [splitU]
+  | cons c cs =>
+    unfold splitU
+    split
+    · simp
+    · split <;> simp
+
+theorem joinU_splitU (s : List Char) : joinU (splitU s) = s := by
+  induction s with
+  | nil => simp [splitU, joinU]
+  | cons c cs ih =>
+    unfold splitU
+    split
+    · rename_i hc
+      cases hs : splitU cs with
+      | nil => exact absurd hs (splitU_ne_nil cs)
+      | cons y r => rw [hs] at ih; simp [joinU, ih, hc]
+    · cases hs : splitU cs with
+      | nil => exact absurd hs (splitU_ne_nil cs)
+      | cons h t =>
+        rw [hs] at ih
+        cases t with
+        | nil => simp [joinU] at ih ⊢; exact ih
+        | cons y r => simp [joinU] at ih ⊢; exact ih
+
+theorem splitU_prefix (pre rest : List Char) (h : ∀ c ∈ pre, c ≠ '_') :
+    splitU (pre ++ '_' :: rest) = pre :: splitU rest := by
+  induction pre with
+  | nil => simp [splitU]
+  | cons c cs ih =>
+    have hc : c ≠ '_' := h c (by simp)
+    have ih' := ih (fun d hd => h d (by simp [hd]))
+    simp only [List.cons_append]
+    rw [splitU]
+    simp [hc, ih']
+
+/-- The name component of the address-qualified key is recovered exactly, for every address and
+every name (leading / trailing / inner underscores included). -/
+theorem attrNameOfKey_attrUseKey (addr : Nat) (name : List Char) :
+    attrNameOfKey (attrUseKey addr name) = name := by
+  unfold attrNameOfKey attrUseKey
+  rw [splitU_prefix _ _ (pyHex_ne addr)]
+  exact joinU_splitU name
+
+theorem attrUseOf_attrUseKey (addr : Nat) (name : List Char) :
+    attrUseOf addr (attrUseKey addr name) = true := by
+  simp [attrUseOf, attrUseKey]
+
+/-- Every pending attribute use on the created object is converted into exactly its own name and
+leaves the pending uses. -/
+theorem convertAttrUses_complete (addr : Nat) (h0 : addr ≠ 0) (uses : List (List Char))
+    (name : List Char) (h : attrUseKey addr name ∈ uses) :
+    name ∈ (convertAttrUses addr uses).1 ∧ attrUseKey addr name ∉ (convertAttrUses addr uses).2 := by
+  simp only [convertAttrUses, h0, if_false]
+  constructor
+  · apply List.mem_map.mpr
+    exact ⟨attrUseKey addr name, List.mem_filter.mpr ⟨h, attrUseOf_attrUseKey addr name⟩,
+      attrNameOfKey_attrUseKey addr name⟩
+  · intro hm
+    have := (List.mem_filter.mp hm).2
+    simp [attrUseOf_attrUseKey] at this
+
+/-- Uses that are not attribute uses on the created object stay pending. -/
+theorem convertAttrUses_keeps (addr : Nat) (uses : List (List Char)) (u : List Char)
+    (h : u ∈ uses) (hn : attrUseOf addr u = false) : u ∈ (convertAttrUses addr uses).2 := by
+  unfold convertAttrUses
+  split
+  · exact h
+  · exact List.mem_filter.mpr ⟨h, by simp [hn]⟩
+
 end PynguinModel.Slice
